@@ -117,6 +117,33 @@ def run(ck, w):
                 "the tail records how many hunks a complete band has 'to enable validation that none are missing', but nothing "
                 "reachable from validate compares it with the hunks present (readers: %s): a deleted hunk goes unnoticed" % (detail or "none"))
 
+    o = ck.ob("C09.2c", "Archive::validate hands EVERY listed band to validate_bands: the list comes from list_band_ids and nothing is removed from it "
+                        "(a band directory that lost its head is damage to report, not a directory to skip)")
+    avb = w.body("archive::Archive::validate")
+    lst_ = events_of(lib, avb, "archive::Archive::list_band_ids")
+    vbe_ = rules.creators_of(avb, "validate::validate_bands") or events_of(lib, avb, "validate::validate_bands")
+    if not lst_ or not vbe_:
+        ck.fail(o, avb.name, "anchor-missing", "list_band_ids=%d validate_bands=%d in Archive::validate" % (len(lst_), len(vbe_)))
+    else:
+        thru_ = common.WHOLE_THROUGH + [r"Try>?::branch$"]
+        src_ = flow.origins_x(lib, avb, vbe_[0].args[1], through_all=thru_)
+        problems_ = []
+        if "archive::Archive::list_band_ids" not in flow.origin_calls(src_):
+            problems_.append("the bands validated do not come from list_band_ids (%s)" % flow.origin_summary(src_))
+        for e_ in lst_:
+            for x_ in common.narrowing_uses(lib, avb, e_):
+                problems_.append("the band list is narrowed by %s before validation" % x_.name.split("::")[-1])
+        for x_ in avb.events:
+            if x_.bb in avb.live and x_.args and re.search(r"Vec::<T, A>::(retain|retain_mut|dedup\w*|clear)$|Iterator>?::(filter|filter_map|skip|take|take_while|skip_while|step_by)$", x_.name):
+                oo_ = flow.origins_x(lib, avb, x_.args[0], through_all=thru_)
+                if "archive::Archive::list_band_ids" in flow.origin_calls(oo_):
+                    problems_.append("the band list is narrowed by %s before validation" % x_.name.split("::")[-1])
+        if problems_:
+            for m_ in sorted(set(problems_)):
+                ck.fail(o, avb.name, m_.split(" (")[0], m_)
+        else:
+            ck.ok(o, sites=[vbe_[0].site()])
+
     o = ck.ob("C09.2b", "the hunk-count check looks at ALL hunks present (their whole sequence or their number), not at one end of the list")
     vbb = w.body("validate::validate_bands")
     ha_thru = [r"Iterator>?::(next|copied|cloned|map|eq|count)$", r"IntoIterator>?::into_iter$", r"<impl \[T\]>::(iter|len)$", r"Vec::<T, A>::len$",
